@@ -77,3 +77,8 @@ CHECKS["C06"] = {
          "variants (intact, cursor removed, cursor rejected), restart over the same storage and accounts through the real engine. Convergence / no re-transfer / no conflict artefacts "
          "with intact storage; with a lost cursor everything created or modified reaches both sides through the walk fallback.",
  "technique": "bounded exhaustive exploration; operations, stop point and storage damage are z3 integer choices enumerated by solver-decided branching over the real engine restarted on persisted storage; convergence/no-retransfer/walk-fallback oracles"}
+CHECKS["C07"] = {
+ "text": "Exhaustive bounded exploration with the crash instant as a solver variable (M2): for every history in the family, every storage write (die before) and every engine-issued provider "
+         "write (die after) up to the 10th (14th) of the run is taken as the crash point; restart over the surviving storage and provider contents through the real engine; convergence, no "
+         "lost user content, no conflict artefacts for one-sided histories, no duplication.",
+ "technique": "bounded exhaustive exploration; operations, crash kind and crash index are z3 integer choices enumerated by solver-decided branching over the real engine with a crash-injecting storage/provider wrapper and restart"}
